@@ -213,6 +213,10 @@ impl<const N: usize> Sut<N> {
                     .map(|j| E::with_tag(ledger::t_a(j)))
                     .collect::<Cb<N>>(),
             ),
+            Ctor::FromIterHint(m, hint) => {
+                let v: Vec<E> = (0..m).map(|j| E::with_tag(ledger::t_a(j))).collect();
+                Box::new(crate::exec::FaultyIter { inner: v.into_iter(), hint, slack: 2 * N + 3 }.collect::<Cb<N>>())
+            }
             Ctor::FromArray(m) => {
                 from_array_dispatch!(N, m; 0 1 2 3 4 5 6 7 8 9 10 11 12 13 14 15 16 17 18 19)
             }
